@@ -837,12 +837,26 @@ func signedRevocations(r *ev.Run, n *node.Node, host *iamflow.DIDHost, tp *timeP
 		rv.Proof = nil
 		return rv
 	}(), c1)
-	// c1 is also put into the node's credential store (and its issuer trusted) so that VCR.Resolve(id, resolveTime) can be asked later
+	// a JSON-LD credential of the same issuer is put into the node's credential store (and its issuer trusted) so that
+	// VCR.Resolve(id, resolveTime) can be asked as well (the store finds JSON-LD credentials only)
 	resolveID := ""
+	var cLD json.RawMessage
+	idLD := alice.DID + "#00000004-0000-4000-8000-000000000000"
 	if err := func() error {
-		parsed, err := vc.ParseVerifiableCredential(string(unquote(c1)))
+		doc := map[string]any{"@context": []string{"https://www.w3.org/2018/credentials/v1", "https://nuts.nl/credentials/v1", "https://w3c-ccg.github.io/lds-jws2020/contexts/lds-jws2020-v1.json"},
+			"id": idLD, "type": []string{"VerifiableCredential", "NutsOrganizationCredential"}, "issuer": alice.DID,
+			"issuanceDate":      now.Add(-time.Minute).UTC().Format(time.RFC3339),
+			"credentialSubject": map[string]any{"id": subject.DID, "organization": map[string]any{"name": "Rev", "city": "Rev"}}}
+		signed, err := alice.SignLDDoc(n, doc, proof.ProofOptions{Created: now.Add(-time.Minute)})
 		if err != nil {
 			return err
+		}
+		parsed, err := vc.ParseVerifiableCredential(string(signed))
+		if err != nil {
+			return err
+		}
+		if ok, msg := verifyVC(n, signed); !ok {
+			return fmt.Errorf("JSON-LD credential of the hosted issuer does not verify: %s", msg)
 		}
 		if err := vcrEngine.StoreCredential(*parsed, nil); err != nil {
 			return err
@@ -851,10 +865,13 @@ func signedRevocations(r *ev.Run, n *node.Node, host *iamflow.DIDHost, tp *timeP
 			return err
 		}
 		at := time.Now()
-		_, err = vcrEngine.Resolve(ssi.MustParseURI(id1), &at)
-		return err
+		if _, err = vcrEngine.Resolve(ssi.MustParseURI(idLD), &at); err != nil {
+			return err
+		}
+		cLD = signed
+		return nil
 	}(); err == nil {
-		resolveID = id1
+		resolveID = idLD
 	} else {
 		r.Count("resolve_route_unavailable", 1)
 		r.Extra("resolve_route_unavailable_reason", err.Error())
@@ -882,7 +899,13 @@ func signedRevocations(r *ev.Run, n *node.Node, host *iamflow.DIDHost, tp *timeP
 	}
 	// the same verdicts asked for at explicit validation times around the revocation's own date
 	times := validationTimes(now.Add(-time.Minute), genuine.Date)
-	tp.probe("signed-revocation", "seen-before", c1, subject, true, times, resolveID)
+	tp.probe("signed-revocation", "seen-before", c1, subject, true, times, "")
+	if cLD != nil {
+		if err := register(revocation(alice, alice.DID, idLD)); err != nil {
+			r.Violation("C11/revocation/genuine-refused", "revocation by the credential's issuer refused: "+err.Error(), nil)
+		}
+		tp.probe("signed-revocation", "stored-json-ld", cLD, subject, true, validationTimes(now.Add(-time.Minute), time.Now()), resolveID)
+	}
 	tp.probe("signed-revocation", "revocation-arrived-first", c2, subject, true, times, "")
 	tp.probe("signed-revocation", "never-revoked", c3, subject, false, times, "")
 	r.Count("hosted_did_documents_served", host.Served())
